@@ -16,7 +16,13 @@ func verif_parkedCount() int { panic("intrinsic") }
 // every seal succeeded, the counters in the returned headers are pairwise distinct per group, exactly 1..k, increasing
 // per sender, and the stored chain key stands at k. A receiver holding the announcement made before opens every
 // envelope (a counter, message key and nonce used twice would make the second one unopenable).
-func VerifC09Coop(senders, per, sameGroup int) {
+func VerifC09Coop(senders, per, sameGroup int) { verifC09Coop(senders, per, sameGroup, 0) }
+
+// VerifC09Replay: as VerifC09Coop on one group, while the device's OWN chain-key announcement (published for its own member
+// before anything was sent) comes back through RegisterChainKey concurrently, as the metadata log replays it.
+func VerifC09Replay(senders, per int) { verifC09Coop(senders, per, 1, 1) }
+
+func verifC09Coop(senders, per, sameGroup, replay int) {
 	ctx := verif_background()
 	s := verifNewStore("snd", 8)
 	rcv := verifNewStore("rcv", 8)
@@ -30,6 +36,11 @@ func VerifC09Coop(senders, per, sameGroup int) {
 	// the receiver registers the sender's announcements made before any message is sealed
 	sndMD, rcvMD := verifLink(ctx, s, rcv, g)
 	verifLink(ctx, s, rcv, g2)
+	var ownEnc []byte
+	if replay == 1 {
+		ownEnc, err = s.GetShareableChainKey(ctx, g, sndMD.Member())
+		verif_assume(err == nil)
+	}
 	total := senders * per
 	plains := make([][]byte, total)
 	envs := make([][]byte, total)
@@ -55,6 +66,9 @@ func VerifC09Coop(senders, per, sameGroup int) {
 				grpOf[base+i] = grp
 			}
 		})
+	}
+	if replay == 1 {
+		verif_go("replay", func() { _ = s.RegisterChainKey(ctx, g, sndMD.Device(), ownEnc) })
 	}
 	verif_quiesce()
 	verif_assert(verif_parkedCount() == 0, "C09: no sender stays blocked")
